@@ -2,7 +2,7 @@
 keys and operation histories.  Everything is drawn from the run's one PRNG and
 written out explicitly (hex) into the command list; execution never draws.
 """
-from .core import hx
+from .core import deep, hx
 
 ALPHABETS = [
     [0x00, 0x01],
@@ -20,7 +20,7 @@ def rand_bytes(rng, n):
 
 def make_pool(rng, size=None, style=None):
     """A pool of keys with heavy prefix sharing, nibble-aligned and unaligned."""
-    size = size or rng.choice([3, 4, 5, 6, 8, 10, 12, 16, 24, 40])
+    size = size or rng.choice(deep([3, 4, 5, 6, 8, 10, 12, 16, 24, 40], [3, 4, 6, 8, 12, 16, 24, 40, 64, 96]))
     style = style or rng.choice(["short", "short", "short", "mixed", "mixed", "fixed32", "fixed20", "deep"])
     alpha = rng.choice(ALPHABETS)
 
@@ -168,6 +168,7 @@ class HistoryGen:
         self.batch_len = r.choice([1, 2, 3, 5, 8, 12])
         self.p_abort = r.choice([0.0, 0.2, 0.5]) if aborts else 0.0
         self.via_dict = r.random() < 0.5
+        self.p_hashval = r.choice([0.0, 0.0, 0.0, 0.1, 0.3])
 
     def _cmd(self, d):
         if self.h is not None:
@@ -200,7 +201,10 @@ class HistoryGen:
         if kind in ("set", "noop"):
             v = rng.choice(self.values)
             present[k] = v
-            return self._cmd({"op": "set", "k": hx(k), "v": hx(v), "via": self._via(), "on": on})
+            c = self._cmd({"op": "set", "k": hx(k), "v": hx(v), "via": self._via(), "on": on})
+            if rng.random() < self.p_hashval:
+                c["vh"] = rng.randrange(1000)
+            return c
         present.pop(k, None)
         return self._cmd({"op": kind, "k": hx(k), "via": self._via(), "on": on})
 
